@@ -162,6 +162,19 @@ def shapes():
                     arms_ok.append(f"{pat_a} => {ok},")
                 if n==2: variants.append("U0")
             variants.append("U1")
+            # twins: variants with exactly the field types of V1m0 / V2m0 (only the discriminant tells them apart)
+            for (tw, n) in (("W1",1),("W2",2)):
+                fields=[(f"g{i}: {G[i]}" if kind=="N" else f"{G[i]}") for i in range(n)]
+                variants.append(f"{tw} {{ {', '.join(fields)} }}" if kind=="N" else f"{tw}({', '.join(fields)})")
+                pat_a = (f"{name}::{tw} {{ "+", ".join(f"g{i}: a{i}" for i in range(n))+" }") if kind=="N" else (f"{name}::{tw}("+", ".join(f"a{i}" for i in range(n))+")")
+                pat_b = pat_a.replace("a0","b0").replace("a1","b1")
+                ctor = (f"{name}::{tw} {{ "+", ".join(f"g{i}: x{i}.clone()" for i in range(n))+" }") if kind=="N" else (f"{name}::{tw}("+", ".join(f"x{i}.clone()" for i in range(n))+")")
+                loops="".join(f"for x{i} in take::<{G[i]}>(2) {{ " for i in range(n))
+                arms_vals.append(f"{loops}v.push({ctor}); {'}'*n}")
+                eq=" && ".join(f"a{i}.eqv(b{i})" for i in range(n))
+                arms_eq.append(f"({pat_a}, {pat_b}) => {{ {eq} }}")
+                ok=" && ".join(f"a{i}.decoded_ok()" for i in range(n))
+                arms_ok.append(f"{pat_a} => {ok},")
             code.append(f"{der}\npub enum {name}<A: Default, B: Default, C: Default> {{ {', '.join(variants)} }}\n")
             code.append(f"impl<A: Uni + Default, B: Uni + Default, C: Uni + Default> Uni for {name}<A, B, C> {{\n"
                         f"    fn vals() -> Vec<Self> {{ let mut v = vec![{name}::U0, {name}::U1]; {' '.join(arms_vals)} v }}\n"
@@ -206,14 +219,14 @@ def main():
         f.write("//! GENERATED by tools/gen_vtypes.py — do not edit.\n#![allow(unused_imports, clippy::all)]\n")
         f.write("use std::{collections::*, rc::Rc, sync::Arc};\nuse crate::vshape::*;\nuse qbice::Identifiable;\n\n")
         f.write("use qbice::{Decode, Encode, StableHash};\n"+shape_src+"\n")
-        f.write("pub fn run_ser(ctx: &mut Ctx) {\n")
+        f.write("/// the `part`-th of `parts` slices of the type list\npub fn run_ser(ctx: &mut Ctx, part: usize, parts: usize) {\n")
         import json as _j
-        for t in ser: f.write(f"    check_ser::<{t}>(ctx, {_j.dumps(t)});\n")
-        f.write("    check_atomics(ctx, true);\n")
-        f.write("}\n\npub fn run_hash(ctx: &mut Ctx) {\n")
-        for t in EXTRA_HASH_ONLY: f.write(f"    check_hash_only::<{t}>(ctx, {_j.dumps(t)});\n")
-        f.write("    check_atomics(ctx, false);\n    check_os_strings(ctx);\n")
-        for t in hsh: f.write(f"    check_hash::<{t}>(ctx, {_j.dumps(t)});\n")
+        for i,t in enumerate(ser): f.write(f"    if {i} % parts == part {{ check_ser::<{t}>(ctx, {_j.dumps(t)}); }}\n")
+        f.write("    if part == 0 { check_atomics(ctx, true); }\n")
+        f.write("}\n\npub fn run_hash(ctx: &mut Ctx, part: usize, parts: usize) {\n")
+        for t in EXTRA_HASH_ONLY: f.write(f"    if part == 0 {{ check_hash_only::<{t}>(ctx, {_j.dumps(t)}); }}\n")
+        f.write("    if part == 0 { check_atomics(ctx, false); check_os_strings(ctx); }\n")
+        for i,t in enumerate(hsh): f.write(f"    if {i} % parts == part {{ check_hash::<{t}>(ctx, {_j.dumps(t)}); }}\n")
         f.write("}\n\npub fn type_ids() -> Vec<(&'static str, u128)> {\n    vec![\n")
         for t in ids: f.write(f"        ({_j.dumps(t)}, <{t} as Identifiable>::STABLE_TYPE_ID.as_u128()),\n")
         f.write("    ]\n}\n")
